@@ -479,8 +479,43 @@ theorem insert_empty_32_eq {D : Type} (g : Rng D) (fuel : Nat) (e : Nat) (he : e
     · rw [← h.1]; exact (tiny_to_usize_32_eq t' (by omega)).symm
 
 
+/-! ### the `Stack` arm of `remove` -/
+
+theorem remove_stack_64_eq {D : Type} (g : Rng D) (fuel : Nat) (t : T) (wf : WF cfg64 (.stack t)) (e : Nat) (d : D) :
+    remove cfg64 g fuel (.stack t) e d =
+      (match Gen.remove_stack_64 t.sz t.bits e with
+       | none => .ok ((.stack t, false), d)
+       | some none => .ok ((.empty, true), d)
+       | some (some v) => (do let r ← fromIterSorted cfg64 g fuel v; pure (r, true) : M D (Rp × Bool)) d) := by
+  simp only [remove, Gen.remove_stack_64, Gen.tiny_any_64, tinyDrain64_eq_members t wf, show cfg64.codec = codec64 from rfl]
+  by_cases hc : (t.members codec64).contains e = true
+  · simp only [hc, if_true]
+    by_cases h0 : t.sz - 1 = 0
+    · simp only [h0, if_true]; rfl
+    · simp only [h0, if_false]
+  · simp only [hc, if_false, Bool.false_eq_true]
+    rfl
+
+theorem remove_stack_32_eq {D : Type} (g : Rng D) (fuel : Nat) (t : T) (wf : WF cfg32 (.stack t)) (e : Nat) (d : D) :
+    remove cfg32 g fuel (.stack t) e d =
+      (match Gen.remove_stack_32 t.sz t.bits e with
+       | none => .ok ((.stack t, false), d)
+       | some none => .ok ((.empty, true), d)
+       | some (some v) => (do let r ← fromIterSorted cfg32 g fuel v; pure (r, true) : M D (Rp × Bool)) d) := by
+  simp only [remove, Gen.remove_stack_32, Gen.tiny_any_32, tinyDrain32_eq_members t wf, show cfg32.codec = codec32 from rfl]
+  by_cases hc : (t.members codec32).contains e = true
+  · simp only [hc, if_true]
+    by_cases h0 : t.sz - 1 = 0
+    · simp only [h0, if_true]; rfl
+    · simp only [h0, if_false]
+  · simp only [hc, if_false, Bool.false_eq_true]
+    rfl
+
+
 end SC
 #print axioms SC.tiny_insert_64_eq
 #print axioms SC.tiny_insert_32_eq
 #print axioms SC.insert_stack_64_eq
 #print axioms SC.insert_empty_32_eq
+#print axioms SC.remove_stack_64_eq
+#print axioms SC.remove_stack_32_eq
